@@ -48,6 +48,7 @@ type hCfg struct {
 	SamePrecPair   bool // the uplink and the downlink PDR of a pair (same filter) carry the same precedence
 	NoRelease      bool // run() leaves the associations (and live sessions) in place
 	AddrBase       int  // first host number of this runner's peer addresses (default 20)
+	ReuseSeq       bool // one request in eight carries the sequence number of the request before it (which has been answered)
 	SafeQER        bool // steer around the session-QER heuristic's known unsound shapes (owned by C09): with 2+ QERs the
 	// last one is a non-GBR QER with the strictly largest uplink MBR, referenced last by every PDR, and is not updated
 }
@@ -68,6 +69,7 @@ type hOp struct {
 }
 
 type hRunner struct {
+	lastSeq      uint32
 	res          *vResult
 	a            *vAgent
 	rng          *rand.Rand
@@ -101,6 +103,16 @@ func (h *hRunner) logf(f string, a ...interface{}) {
 }
 
 func (h *hRunner) seq() uint32 {
+	if h.cfg.ReuseSeq && h.lastSeq != 0 && h.rng.Intn(8) == 0 {
+		// the previous request has been answered, so its sequence number is free again: a different request carries it
+		return h.lastSeq
+	}
+	s := h.seq1()
+	h.lastSeq = s
+	return s
+}
+
+func (h *hRunner) seq1() uint32 {
 	if h.cfg.Seqs != nil {
 		for {
 			s := h.cfg.Seqs(h.rng)
